@@ -55,6 +55,7 @@ func run(backend sim.Backend, nStores int, batch1, conc1 bool, keys, splits []st
 			res.fail = fmt.Sprintf(f, a...)
 		}
 	})
+	defer w.Release()
 	res.w = w
 	done := make(chan struct{})
 	go func() {
